@@ -49,12 +49,22 @@ theorem custody_holds_standing_bid (s0 : State) (ops : List Op) (h0 : s0.live = 
   simp only [sumBy] at this
   omega
 
-example : custody_holds_standing_bid
-    { bank := [((2, 0), 50), ((1, 1), 10)], cust := 0, coll := 1, live := [], closed := [], now := 0 }
-    [.start { app := 1, mapping := 1, id := 1, kind := .surplusV1, payDenom := 0, lotDenom := 1, pay := 0, lot := 10, lot0 := 10,
-              bidder := none, nbids := 0, factor := 0, endT := 10, bidEndT := 10, dur := 10, bidDur := 5 },
-     .bid 2 1 1 1 0 7] rfl (by decide) (by intro op h; simp at h; rcases h with h | h <;> subst h <;> simp [Op.sender?]) 0
-    = (by decide : (7 : Int) = 0 + 7) := rfl
+/-- non-vacuity: a first-generation surplus auction with a lot of 10 and a standing bid of 7 — the hypotheses hold
+and custody holds 7 of the bid denomination and 10 of the lot denomination -/
+def custodyDemo0 : State :=
+  { bank := [((2, 0), 50), ((1, 1), 10)], cust := 0, coll := 1, live := [], closed := [], now := 0 }
+def custodyDemoOps : List Op :=
+  [.start { app := 1, mapping := 1, id := 1, kind := .surplusV1, payDenom := 0, lotDenom := 1, pay := 0, lot := 10, lot0 := 10,
+            bidder := none, nbids := 0, factor := 0, endT := 10, bidEndT := 10, dur := 10, bidDur := 5 },
+   .bid 2 1 1 1 0 7]
+
+example : custodyDemo0.live = [] ∧ custodyDemo0.cust ≠ custodyDemo0.coll ∧ UsersOnly custodyDemo0.cust custodyDemoOps ∧
+    bal (run custodyDemo0 custodyDemoOps).bank 0 0 = 7 ∧ sumBy (held 0) (run custodyDemo0 custodyDemoOps).live = 7 ∧
+    bal (run custodyDemo0 custodyDemoOps).bank 0 1 = 10 ∧ sumBy (held 1) (run custodyDemo0 custodyDemoOps).live = 10 := by
+  refine ⟨rfl, by decide, ?_, by decide, by decide, by decide, by decide⟩
+  intro op h
+  simp only [custodyDemoOps, List.mem_cons, List.mem_nil_iff, or_false] at h
+  rcases h with h | h <;> subst h <;> simp [Op.sender?, custodyDemo0]
 
 /-- **Each accepted bid improves on the standing one by the bid factor**, with the code's exact rounding
 `⌈factor·standing⌉ = (factor.MulInt standing).Ceil.TruncateInt`; mirrored for debt auctions, where the bid is the
